@@ -143,10 +143,10 @@ def write_fts_gff(fts, f, header=None):
                 loc_meta.update(loc.meta._gff)
             locs_meta.append(loc_meta)
         seqid = quote(locs_meta[0].get('seqid', '.'))
-        source = quote(locs_meta[0].get('source', '.'))
         type_ = locs_meta[0].get('type') or meta.get('type') or '.'
         for i, loc in enumerate(ft.locs):
             gff_meta = locs_meta[i]
+            source = quote(gff_meta.get('source', '.'))
             for k in ('seqid', 'source', 'type'):
                 gff_meta.pop(k, None)
             nscore = gff_meta.pop('score', '.')
